@@ -500,7 +500,13 @@ class Nematic(Unit):
             from pyvc.state import cur
             a = kwargs.get("input_property", args[0] if args else None)
             cur().require(isinstance(kwargs.get("neighborfile", args[1] if len(args) > 1 else ""), str), "call:spatial_average:pre")
-            inp["cg_called_with"] = (a, kwargs.get("Nmax", args[2] if len(args) > 2 else 30))
+            # the call normalised against spatial_average's real signature (input_property, neighborfile, Nmax, outputfile): the
+            # neighbour file and the neighbour cap are the ones the caller of tensor() passed (a dropped keyword shows the default here)
+            nf_got = args[1] if len(args) > 1 else kwargs.get("neighborfile", "")
+            nmax_got = args[2] if len(args) > 2 else kwargs.get("Nmax", 30)
+            cur().require(nf_got == "neighbors.dat", "call:spatial_average:neighborfile=the-file-given-to-tensor()")
+            cur().require(sv.cmp("==", nmax_got, inp["Nmax"]), "call:spatial_average:Nmax=the-Nmax-given-to-tensor()")
+            inp["cg_called_with"] = (a, nmax_got)
             r = a.reader()
             import z3
             # the callee's result is an opaque array CG(n, i, x, y); its postcondition (the neighbour mean of the array
@@ -531,12 +537,14 @@ class Nematic(Unit):
         snaps, acc = make_snapshots(ctx, "ori", T, N, d)
         n0, i0 = ctx.int("n0"), ctx.int("i0")
         cn, nb, cg_spec = neighbour_model(N)
-        inp = dict(d=d, T=T, N=N, acc=acc, n0=n0, i0=i0, nbm=nbm, sc=sc, cg_spec=cg_spec, cn=cn, nb=nb)
+        Nmax = ctx.int("Nmax")          # the caller's neighbour cap: symbolic, so that it cannot coincide with a default
+        ctx.assume(Nmax >= 1)
+        inp = dict(d=d, T=T, N=N, acc=acc, n0=n0, i0=i0, nbm=nbm, sc=sc, cg_spec=cg_spec, cn=cn, nb=nb, Nmax=Nmax)
         ctx.interp.summaries.update(self._summaries(inp))
         ctx.assume(cn(n0, i0) >= 0)
         obj = ctx.obj(NEM, "NematicOrder", dict(orientations=snaps, snapshots=None, QIJ=0))
         inp["self"] = obj
-        kwargs = dict(ndim=2, neighborfile=("neighbors.dat" if nbm != "raw" else ""), Nmax=30, eigvals=(sc == "eigenvalue"), outputfile="out")
+        kwargs = dict(ndim=2, neighborfile=("neighbors.dat" if nbm != "raw" else ""), Nmax=Nmax, eigvals=(sc == "eigenvalue"), outputfile="out")
         return [obj], kwargs, inp
 
     def clause_names(self, case):
@@ -650,7 +658,19 @@ def _replay_nematic(case, clause, model, seed):
                                         boxlength=np.array([10.0, 10.0]), boxbounds=np.array([[0, 10.0], [0, 10.0]]), realbounds=None,
                                         hmatrix=np.diag([10.0, 10.0])) for n in range(T)]
             snaps = ru.Snapshots(nsnapshots=T, snapshots=frames)
-            nbl = [[sorted(rng.sample([j for j in range(N) if j != i], rng.randint(0, min(N - 1, 4)))) for i in range(N)] for _ in range(T)]
+            if k % 5 == 3:
+                N = rng.choice([34, 40])        # more than 30 (the callee's default cap) neighbours per particle are possible
+            nbmax = min(N - 1, 4) if k % 5 != 3 else N - 1
+            if k % 5 == 3:
+                ang = [[rng.uniform(-math.pi, math.pi) for _ in range(N)] for _ in range(T)]
+                U = np.array([[[math.cos(a), math.sin(a)] for a in fr] for fr in ang])
+                frames = [ru.SingleSnapshot(timestep=10 * n, nparticle=N, particle_type=np.ones(N, dtype=int), positions=U[n].copy(),
+                                            boxlength=np.array([10.0, 10.0]), boxbounds=np.array([[0, 10.0], [0, 10.0]]), realbounds=None,
+                                            hmatrix=np.diag([10.0, 10.0])) for n in range(T)]
+                snaps = ru.Snapshots(nsnapshots=T, snapshots=frames)
+            nbl = [[sorted(rng.sample([j for j in range(N) if j != i], rng.randint(0, nbmax))) for i in range(N)] for _ in range(T)]
+            # the neighbour cap the caller passes: above every coordination number (documented use), or a small cap (first Nmax listed count)
+            Nmax_arg = (N + 5) if k % 2 == 0 else rng.choice([1, 2, 3])
             nfile = ""
             if nbm != "raw":
                 nfile = os.path.join(tmp, "nb.dat")
@@ -661,7 +681,7 @@ def _replay_nematic(case, clause, model, seed):
                             f.write(" ".join(str(x) for x in [i + 1, len(nbl[n][i])] + [j + 1 for j in nbl[n][i]]) + "\n")
             obj = mod.NematicOrder(snaps, None)
             try:
-                got = obj.tensor(ndim=2, neighborfile=nfile, Nmax=30, eigvals=(sc == "eigenvalue"), outputfile=os.path.join(tmp, "o"))
+                got = obj.tensor(ndim=2, neighborfile=nfile, Nmax=Nmax_arg, eigvals=(sc == "eigenvalue"), outputfile=os.path.join(tmp, "o"))
             except Exception as e:
                 return {"ran": True, "failed": True, "inputs": {"directors": U.tolist(), "neighbours": nbl if nbm != "raw" else None},
                         "detail": f"raises {type(e).__name__}: {e}"}
@@ -675,9 +695,10 @@ def _replay_nematic(case, clause, model, seed):
                         return (2 * np.outer(u, u) - np.eye(2)) / 2
                     Q = rawq(i)
                     if nbm != "raw":
-                        for j in nbl[n][i]:
+                        listed = nbl[n][i][:Nmax_arg]          # read_neighbors delivers the first Nmax listed neighbours
+                        for j in listed:
                             Q = Q + rawq(j)
-                        Q = Q / (1 + len(nbl[n][i]))
+                        Q = Q / (1 + len(listed))
                     Qs = np.asarray(obj.QIJ)[n, i]
                     if not np.allclose(Qs, Q, rtol=1e-9, atol=1e-11):
                         return {"ran": True, "failed": True, "searched": k + 1, "inputs": {"directors": U.tolist(), "neighbours": nbl if nbm != "raw" else None, "frame": n, "particle": i},
@@ -839,21 +860,33 @@ def _replay_tetra(case, clause, model, seed):
     ru = importlib.import_module(RU)
     rng = random.Random(seed)
 
-    def mk(frames, L):
+    def cell(L, tilt):
+        H = np.diag(np.array(L, dtype=float))
+        if tilt is not None:
+            H[1, 0], H[2, 0], H[2, 1] = tilt        # LAMMPS lower-triangular cell: rows a, b, c
+        return H
+
+    def mk(frames, L, tilts=None):
         fs = [ru.SingleSnapshot(timestep=n, nparticle=len(P), particle_type=np.ones(len(P), dtype=int), positions=np.array(P, dtype=float),
                                 boxlength=np.array(L, dtype=float), boxbounds=np.array([[0.0, x] for x in L]), realbounds=None,
-                                hmatrix=np.diag(np.array(L, dtype=float))) for n, P in enumerate(frames)]
+                                hmatrix=cell(L, tilts[n] if tilts else None)) for n, P in enumerate(frames)]
         return ru.Snapshots(nsnapshots=len(fs), snapshots=fs)
 
-    def reference(P, L, ppp):
+    def reference(P, L, ppp, tilt=None):
         P = np.array(P, dtype=float)
         N = len(P)
         out = np.zeros(N)
+        H = cell(L, tilt)
+        Hinv = np.linalg.inv(H)
         for i in range(N):
             Dv = P - P[i]
-            for c in range(3):
-                if ppp[c]:
-                    Dv[:, c] -= L[c] * np.round(Dv[:, c] / L[c])
+            if tilt is None:
+                for c in range(3):
+                    if ppp[c]:
+                        Dv[:, c] -= L[c] * np.round(Dv[:, c] / L[c])
+            else:               # fractional rounding in the cell of THIS frame (the documented minimum-image convention, property C02)
+                fr = Dv @ Hinv
+                Dv = Dv - (np.rint(fr) * np.array(ppp)) @ H
             dist = np.sqrt((Dv ** 2).sum(axis=1))
             order = sorted((j for j in range(N) if j != i), key=lambda j: dist[j])[:4]
             s = 0.0
@@ -874,8 +907,19 @@ def _replay_tetra(case, clause, model, seed):
         L = [rng.uniform(4, 9) for _ in range(3)]
         frames = [[[rng.uniform(0, L[cc]) for cc in range(3)] for _ in range(N)] for _ in range(T)]
         cases.append((frames, L, [rng.randint(0, 1) for _ in range(3)] if k % 3 else [1, 1, 1], {}))
+    # sheared trajectories: the tilt factors change from frame to frame at constant box lengths (the box-length asserts of the routine hold)
+    for k in range(8):
+        N = rng.choice([6, 9, 14])
+        L = [rng.uniform(4, 7) for _ in range(3)]
+        tilts = [(rng.uniform(-0.45, 0.45) * L[0], rng.uniform(-0.3, 0.3) * L[0], rng.uniform(-0.3, 0.3) * L[1]) for _ in range(3)]
+        frames = []
+        for t in tilts:
+            H = cell(L, t)
+            frames.append([(np.array([rng.random() for _ in range(3)]) @ H).tolist() for _ in range(N)])
+        cases.append((frames, L, [1, 1, 1] if k % 2 == 0 else [1, 1, 0], {"tilts": tilts}))
     for n_case, (frames, L, ppp, exact) in enumerate(cases):
-        snaps = mk(frames, L)
+        tilts = exact.pop("tilts", None) if isinstance(exact, dict) else None
+        snaps = mk(frames, L, tilts)
         keep = [np.array(P, dtype=float).copy() for P in frames]
         try:
             got = np.asarray(mod.q8_tetrahedral(snaps, ppp=np.array(ppp)))
@@ -885,11 +929,11 @@ def _replay_tetra(case, clause, model, seed):
         if got.shape != (len(frames), len(frames[0])):
             return {"ran": True, "failed": True, "inputs": {"positions": frames}, "detail": f"result shape {got.shape}"}
         for n, P in enumerate(frames):
-            want = reference(P, L, ppp)
+            want = reference(P, L, ppp, tilts[n] if tilts else None)
             for i in range(len(P)):
                 w = exact.get(i, want[i]) if n == 0 else want[i]
                 if not abs(got[n, i] - w) <= 1e-9 * (1 + abs(w)):
-                    return {"ran": True, "failed": True, "searched": n_case + 1, "inputs": {"positions": frames, "boxlength": L, "ppp": ppp, "frame": n, "particle": i},
+                    return {"ran": True, "failed": True, "searched": n_case + 1, "inputs": {"positions": frames, "boxlength": L, "tilt_per_frame(xy,xz,yz)": tilts, "ppp": ppp, "frame": n, "particle": i},
                             "detail": f"q_tetra = {got[n, i]}, definition over the four nearest neighbours gives {w}"}
             if not np.array_equal(keep[n], snaps.snapshots[n].positions):
                 return {"ran": True, "failed": True, "inputs": {"positions": frames}, "detail": "positions of the trajectory were modified"}
